@@ -31,3 +31,4 @@ func vMutexFree(mu *sync.Mutex) bool
 func vFmtArg(k int) uint64
 func vPar(f, g func())
 func vNoBlock(on bool)
+func vFmtInt(k int, s string) uint64
